@@ -1,13 +1,29 @@
 package c28
 
 import (
+	"flag"
 	"fmt"
 	"os"
+	"strconv"
 	"testing"
 
 	"github.com/nspcc-dev/neofs-node/verifharness/ev"
 	"pgregory.net/rapid"
 )
+
+// caseBudget returns how many of the -rapid.checks iterations a slower test
+// really evaluates (1/div of them, at least 300): all C28 tests run in one unit
+// with one checks value, the server-level tests cost 1-2 ms per case. Skipped
+// iterations return before drawing anything and are not counted as evaluations.
+func caseBudget(div int) int {
+	n := 100
+	if f := flag.Lookup("rapid.checks"); f != nil {
+		if v, err := strconv.Atoi(f.Value.String()); err == nil {
+			n = v
+		}
+	}
+	return max(n/div, min(n, 300))
+}
 
 func caseLabels(c caseSpec, ref refResult) []string {
 	ls := []string{"req-" + c.Req, "role-" + ref.Role, "ref-why-" + ref.Why}
@@ -133,7 +149,11 @@ func TestC28Server(t *testing.T) {
 	rec := ev.New("C28", "server")
 	defer rec.Flush()
 	s := newServerSUT()
+	budget, iter := caseBudget(2), 0
 	rapid.Check(t, func(t *rapid.T) {
+		if iter++; iter > budget {
+			return
+		}
 		c := genCase(t, false)
 		ref := refDecide(c)
 		twoStage := (c.Req == kGet || c.Req == kHead) && ref.NeedsObject
@@ -192,7 +212,11 @@ func TestC28ServerStored(t *testing.T) {
 	}
 	defer e.Close()
 	suts := map[bool]*srvSUT{false: newStoredServerSUT(e, false), true: newStoredServerSUT(e, true)}
+	budget, iter := caseBudget(4), 0
 	rapid.Check(t, func(t *rapid.T) {
+		if iter++; iter > budget {
+			return
+		}
 		c := genCase(t, true)
 		aclLocal := rapid.Bool().Draw(t, "acl-checker-sees-local-object")
 		ref := refDecide(c)
@@ -206,15 +230,22 @@ func TestC28ServerStored(t *testing.T) {
 			t.Fatalf("server returned a transport error: %v\ncase: %s", err, c)
 		}
 		rec.Label(fmt.Sprintf("srv-code-%d", got.Code))
-		denied := got.Code == codeAccessDenied
+		// "not served": a failure status and no object data. After a denial in the
+		// second stage the status is not always ACCESS_DENIED (a denial raised while
+		// the local storage streams the object surfaces as "object not found"); the
+		// property speaks about serving, so only that is asserted.
+		refused := got.Code != 0 && !got.GotHeader
+		if !ref.Allow && refused && got.Code != codeAccessDenied {
+			rec.Label(fmt.Sprintf("denied-reported-as-code-%d", got.Code))
+		}
 		switch {
-		case denied && got.GotHeader:
-			t.Fatalf("PROPERTY VIOLATED: ACCESS_DENIED but object data was sent before\ncase: %s", c)
-		case ref.Allow && denied:
+		case got.Code != 0 && got.GotHeader:
+			t.Fatalf("PROPERTY VIOLATED: failure status %d %q but object data was sent before\ncase: %s", got.Code, got.Message, c)
+		case ref.Allow && got.Code == codeAccessDenied:
 			t.Fatalf("over-restrictive (reference allows, server denies): %q\ncase: %s\nreference decided by %s (role %s)", got.Message, c, ref.Why, ref.Role)
 		case ref.Allow && (got.Code != 0 || !got.GotHeader):
 			t.Fatalf("reference allows but the stored object was not returned: status %d %q header=%v\ncase: %s", got.Code, got.Message, got.GotHeader, c)
-		case !ref.Allow && !denied:
+		case !ref.Allow && !refused:
 			t.Fatalf("PROPERTY VIOLATED: request served although the rules deny it: status %d %q header sent=%v (acl checker sees local object: %v)\ncase: %s\nreference: deny by %s (role %s, bearer table used=%v)",
 				got.Code, got.Message, got.GotHeader, aclLocal, c, ref.Why, ref.Role, ref.UsedBearer)
 		}
